@@ -562,6 +562,11 @@ def c011_version(ctx):
             g = closure_of_call(ctx, f, c)
             if g is not None and reads_timestamp(g) and not P.order(f, [q_], [h]):
                 direction = ordering_direction(g, bool(re.search(r"_key$", c["callee"])))
+        # an in-place `level0.reverse()` between the sort and the walk reverses it as well
+        for q_ in P.call_points(f, r"slice::<impl \[T\]>::reverse$|::reverse$"):
+            c = P.term_at(f, q_)
+            if c["args"] and (src_pts & {x["pt"] for x in P.origins(f, c["args"][0]) if x["k"] == "call"}) and not P.order(f, [q_], [h]):
+                revs += 1
         newest_first = (direction == "asc" and revs % 2 == 1) or (direction == "desc" and revs % 2 == 0)
         ctx.check(R, f, "l0-newest-first", newest_first, "level 0 is sorted by timestamp (%s) and walked %s" % (direction, "in reverse" if revs % 2 else "forward"),
                   "Version::load does not walk level 0 from its newest file to its oldest (sorted %s by timestamp, %d reversal(s) of the walk): "
